@@ -1,14 +1,17 @@
 #!/bin/sh
 # tools/confirm_seed.sh <id> <worktree> <demo-file> <package-dir-relative> <run-pattern>: confirm a seeded change independently:
 # builds, repository suite still at baseline, demonstration fails with the change and passes without it.
+# (no git stash: the stash list is shared between worktrees)
 ID=$1; WT=$2; DEMO=$3; PKG=$4; PAT=${5:-.}
 cd $WT || exit 9
+P=/tmp/confirm_$ID.diff
+git diff > $P
 B=$(go build ./... 2>&1 && echo build-ok)
 T=$(python3 /verif/tools/baseline.py $WT | head -1)
 cp $DEMO $WT/$PKG/
 W=$(go test -count=1 -run "$PAT" ./$PKG/ 2>&1 | grep -E "^(FAIL|ok)" | head -1)
-git stash -q
+git checkout -q -- .
 WO=$(go test -count=1 -run "$PAT" ./$PKG/ 2>&1 | grep -E "^(FAIL|ok)" | head -1)
-git stash pop -q
-rm -f $WT/$PKG/$(basename $DEMO)
+git apply $P
+rm -f $WT/$PKG/$(basename $DEMO) $P
 echo "$ID | $B | $T | with: $W | without: $WO | $(git status --short | tr '\n' ' ')"
